@@ -76,6 +76,20 @@ enum Ch {
     Peer,
 }
 
+/// TLC integers are 32 bit: clamp the usize::MAX style "unlimited" values of the statistics snapshot
+fn clamp_ints(v: &mut serde_json::Value) {
+    match v {
+        serde_json::Value::Number(n) => {
+            if n.as_i64().map(|x| x > 0x7fff_ffff).unwrap_or(true) && n.as_f64().map(|x| x > 0.0).unwrap_or(false) {
+                *v = json!(0x7fff_ffff);
+            }
+        }
+        serde_json::Value::Array(a) => a.iter_mut().for_each(clamp_ints),
+        serde_json::Value::Object(o) => o.values_mut().for_each(clamp_ints),
+        _ => {}
+    }
+}
+
 fn cfg_json(c: &EpCfg) -> serde_json::Value {
     json!({
         "iws": c.iws.map(|v| v as i64).unwrap_or(65535),
@@ -89,7 +103,7 @@ fn cfg_json(c: &EpCfg) -> serde_json::Value {
         "local_error_reset_max": c.local_error_reset_max.unwrap_or(1024),
         "max_send_buf": c.max_send_buf.map(|v| (v as i64).min(0x7fff_ffff)).unwrap_or(409600),
         "enable_push": c.enable_push.unwrap_or(true),
-        "data_frame_budget": c.data_frame_budget.map(|v| v as i64).unwrap_or(-1),
+        "data_frame_budget": c.data_frame_budget.map(|v| (v as i64).min(0x7fff_ffff)).unwrap_or(25600),
         "initial_max_send_streams": c.initial_max_send_streams.map(|v| (v as i64).min(0x7fff_ffff)).unwrap_or(100),
         "initial_stream_id": c.initial_stream_id.map(|v| v as i64).unwrap_or(1),
         "reset_dur_ms": c.reset_dur_ms.map(|v| (v as i64).min(0x7fff_ffff)).unwrap_or(30000),
@@ -282,7 +296,10 @@ pub fn run(scn: &Scenario, record: bool) -> RunResult {
                     let snap = catch_unwind(AssertUnwindSafe(|| if s.done { if ep == 0 { reg.sr.as_ref().map(|x| x.verif_snapshot()) } else { None } } else { s.task.stats() })).unwrap_or(None);
                     if let Some(js) = snap {
                         match serde_json::from_str::<serde_json::Value>(&js) {
-                            Ok(v) => w.lock().unwrap().log(json!({"t": "stats", "ep": EP[ep], "conn_done": s.done, "s": v})),
+                            Ok(mut v) => {
+                                clamp_ints(&mut v);
+                                w.lock().unwrap().log(json!({"t": "stats", "ep": EP[ep], "conn_done": s.done, "wblocked": wb[ep], "s": v}))
+                            }
                             Err(e) => w.lock().unwrap().log(json!({"t": "stats_err", "ep": EP[ep], "err": e.to_string(), "raw": js})),
                         }
                     }
@@ -433,6 +450,25 @@ pub fn run(scn: &Scenario, record: bool) -> RunResult {
                     let mut sim = SimCtx { w: &w, reg: &mut reg, spawn: &mut spawn, scn };
                     catch_unwind(AssertUnwindSafe(|| task.poll(&mut cx, &mut sim)))
                 };
+                // dense statistics (C18): a snapshot after every poll of a connection task, so that what the endpoint keeps
+                // in the middle of a burst is seen too (the library's lock is free between polls)
+                if scn.dense_stats && matches!(r, Ok(TP::Pending)) && slots[i].task.is_conn() {
+                    let ep = slots[i].task.ep();
+                    let task = &slots[i].task;
+                    if let Some(js) = catch_unwind(AssertUnwindSafe(|| task.stats())).unwrap_or(None) {
+                        if let Ok(mut v) = serde_json::from_str::<serde_json::Value>(&js) {
+                            clamp_ints(&mut v);
+                            let mut g = w.lock().unwrap();
+                            let wbl = g.dirs[ep].wbudget.is_some();
+                            // only the counters: the per-stream list is logged at quiescence
+                            if let Some(o) = v.as_object_mut() {
+                                let held: Vec<i64> = o.get("streams").and_then(|s| s.as_array()).map(|a| a.iter().filter_map(|x| x.get("id").and_then(|i| i.as_i64())).collect()).unwrap_or_default();
+                                o.insert("streams".into(), json!(held));
+                            }
+                            g.log(json!({"t": "stats", "ep": EP[ep], "conn_done": false, "dense": true, "wblocked": wbl, "s": v}));
+                        }
+                    }
+                }
                 match r {
                     Ok(TP::Done) => slots[i].done = true,
                     Ok(TP::Pending) => {
